@@ -492,7 +492,7 @@ namespace photon
                          background_locked {false};
 
         void wait_while(std::atomic_bool& x) {
-            while (unlikely(x.load(std::memory_order_acquire))) {
+            while (unlikely(x.load(std::memory_order_seq_cst))) {
                 do { spin_wait(); }
                 while(likely(x.load(std::memory_order_relaxed)));
             }
@@ -500,8 +500,13 @@ namespace photon
 
     public:
         void foreground_lock() {
-            // lock
-            foreground_locked.store(true, std::memory_order_release);
+            // lock. This is one half of a Dekker-style protocol (store my
+            // flag, then load the other side's flag): the store must be
+            // ordered before the load, which release/acquire does not give -
+            // on x86 the store could still sit in the store buffer while
+            // the load below already read "background not locked", and a
+            // stealing vCPU, reading "foreground not locked", entered as well
+            foreground_locked.store(true, std::memory_order_seq_cst);
 
             // wait if (unlikely) background locked
             wait_while(background_locked);
@@ -512,11 +517,11 @@ namespace photon
                 wait_while(foreground_locked);
 
                 // try lock
-                if (background_locked.exchange(true, std::memory_order_acquire))
+                if (background_locked.exchange(true, std::memory_order_seq_cst))
                     return false;   // avoid wait while holding the lock
 
                 // check to make sure it is still unlocked
-                if (likely(!foreground_locked.load(std::memory_order_acquire)))
+                if (likely(!foreground_locked.load(std::memory_order_seq_cst)))
                     return true;
 
                 // otherwise release lock, wait, and repeat again
